@@ -667,6 +667,10 @@ func RPCFreeSectors(ctx context.Context, t TransportClient, signer ContractSigne
 	var resp rhp4.RPCFreeSectorsResponse
 	if err := rhp4.ReadResponse(s, &resp); err != nil {
 		return RPCFreeSectorsResult{}, fmt.Errorf("failed to read response: %w", err)
+	} else if len(indices) > 0 && indices[0] >= numSectors {
+		// an honest host refuses the request; the proof verifier cannot deal
+		// with an index the contract does not have
+		return RPCFreeSectorsResult{}, clientErrf("index %v is out of range: contract has %v sectors", indices[0], numSectors)
 	} else if !rhp4.VerifyFreeSectorsProof(resp.OldSubtreeHashes, resp.OldLeafHashes, indices, numSectors, contract.Revision.FileMerkleRoot, resp.NewMerkleRoot) {
 		return RPCFreeSectorsResult{}, clientErr("failed to verify free sectors proof", ErrInvalidProof)
 	}
